@@ -28,6 +28,7 @@ type HarnessSpec struct {
 	// package with the same parameter list (receiver first). Engine only: the native replay runs the real callee.
 	MapOrder  []string // substrings of map types whose iteration order is explored (a choice per range loop)
 	WordByteEq bool // INT mode: compare byte strings word-wise (engine/intmode_bytes_e.go) instead of by grouped decompositions
+	AbsMake   bool // make([]byte, 0, <symbolic cap>) yields an abstract-content buffer (only its length is tracked)
 	LenAsSum  bool // model math/bits.Len* as a sum of comparisons instead of an ite chain
 	Redirects map[string]string
 	smtlog    string
